@@ -208,7 +208,14 @@ def _analyze_node(node, config: Config, cwd: Path, *, remote: bool = False) -> D
     elif kind == "arith-cmd":
         # (( expr )) - check for command substitutions in the expression
         decisions = []
-        for cmdsub in _find_cmdsubs_in_arith(node.expression):
+        raw = getattr(node, "raw_content", None)
+        if isinstance(raw, str):
+            # The parsed tree drops some substitutions ((( x$(cmd) )), (( "$(cmd)" )),
+            # (( ${x:-$(cmd)} ))); the raw text has them all
+            decisions.extend(_analyze_string_cmdsubs(raw, config, cwd, remote=remote))
+        for cmdsub in [] if isinstance(raw, str) else _find_cmdsubs_in_arith(
+            node.expression
+        ):
             inner_decision = _analyze_node(cmdsub.command, config, cwd, remote=remote)
             if inner_decision.action != "allow":
                 decisions.append(
@@ -306,14 +313,11 @@ def _analyze_command(
                         decisions.append(
                             Decision("ask", f"cmdsub injection risk: {inner_cmd}")
                         )
-            elif part_kind == "param":
-                # Parameter expansion - check for cmdsubs in arg (raw string)
-                arg = getattr(part, "arg", None)
-                if arg and isinstance(arg, str):
-                    param_decisions = _analyze_string_cmdsubs(
-                        arg, config, cwd, remote=remote
-                    )
-                    decisions.extend(param_decisions)
+            else:
+                # Parameter/arithmetic/array expansions - check for nested cmdsubs
+                decisions.extend(
+                    _analyze_expansion_part(part, word, config, cwd, remote=remote)
+                )
 
     # 2. Check redirects
     redirect_decisions = _analyze_redirects(node, config, cwd, remote=remote)
@@ -609,14 +613,62 @@ def _analyze_word_parts(
                 )
             else:
                 decisions.append(inner_decision)
-        elif part_kind == "param":
-            # Parameter expansion - check for cmdsubs in arg value (raw string)
-            # ${x:-$(cmd)}, ${x:=$(cmd)}, ${x:+$(cmd)}, ${x:?$(cmd)}
-            arg = getattr(part, "arg", None)
-            if arg and isinstance(arg, str):
+        else:
+            # Parameter expansion ${x:-$(cmd)}, subscripts ${a[$(cmd)]}, $((...)), arrays
+            decisions.extend(
+                _analyze_expansion_part(part, word, config, cwd, remote=remote)
+            )
+    return decisions
+
+
+def _arith_expansion_texts(value: str) -> list[str]:
+    """Raw texts of the $(( ... )) expansions inside a word's source text."""
+    texts = []
+    i = 0
+    while i < len(value):
+        if value.startswith("$((", i):
+            depth = 0
+            j = i + 3
+            while j < len(value):
+                if value[j] == "(":
+                    depth += 1
+                elif value[j] == ")":
+                    if depth == 0:
+                        break
+                    depth -= 1
+                j += 1
+            texts.append(value[i + 3 : j])
+            i = j + 2
+        else:
+            i += 1
+    return texts
+
+
+def _analyze_expansion_part(
+    part, word, config: Config, cwd: Path, *, remote: bool = False
+) -> list[Decision]:
+    """Substitutions bash evaluates inside the expansions that are not cmdsub/procsub parts:
+    ${name[sub]...}, ${#name[sub]}, ${!name[sub]}, $((...)), $[...], name=(...)."""
+    decisions: list[Decision] = []
+    part_kind = getattr(part, "kind", None)
+    if part_kind in ("param", "param-len", "param-indirect"):
+        # The name may carry a subscript (a[$(cmd)]) and the argument is a raw string
+        for text in (getattr(part, "param", None), getattr(part, "arg", None)):
+            if text and isinstance(text, str):
                 decisions.extend(
-                    _analyze_string_cmdsubs(arg, config, cwd, remote=remote)
+                    _analyze_string_cmdsubs(text, config, cwd, remote=remote)
                 )
+    elif part_kind == "arith":
+        # The parsed expression tree drops some substitutions; the word's source has them all
+        for text in _arith_expansion_texts(getattr(word, "value", "") or ""):
+            decisions.extend(_analyze_string_cmdsubs(text, config, cwd, remote=remote))
+    elif part_kind == "arith-deprecated":
+        text = getattr(part, "expression", None)
+        if text and isinstance(text, str):
+            decisions.extend(_analyze_string_cmdsubs(text, config, cwd, remote=remote))
+    elif part_kind == "array":
+        for element in getattr(part, "elements", None) or []:
+            decisions.extend(_analyze_word_parts(element, config, cwd, remote=remote))
     return decisions
 
 
